@@ -2,23 +2,36 @@ import AlgoVerif.Generated.C16Gen
 import AlgoVerif.Proofs.GoRt
 import AlgoVerif.Model.C16
 /-!
-# The GENERATED model of the single-set methods of `set/set.go` and `set/stable.go` and the hand-written Model
+# The GENERATED model of `set/{set,stable,sorted}.go` and the hand-written Model
 
 `Generated/C16Gen.lean` is rewritten from /repo's source by `/verif/extract/go2lean` on every check run
-(`bin/pre-C16`): `find`, `String`, `Clone`, `CloneEmpty`, `Size`, `IsEmpty`, `Add`, `Remove`, `RemoveAll`, `Contains`,
-`AnyMatch`, `AllMatch`, `FirstMatch` of the types `set` and `stable` (the methods that take or return other sets
-through the `Set[T]` interface, the iterator `All` and the constructors are outside the translator's subset and are
-skipped BY NAME: see `bin/pre-C16`).  The hand Model (`Model/C16.lean`) keeps the members as a `List`, the callback as a
-function that may itself fail, and one `MSet` for the three implementations; `toM` / `toM_st` read the generated
-structure (members an `Array`, the callback a pure function, as the translator assumes of every function value) as
-the Model's.  Every statement is an EQUALITY of outcomes for every set object, every callback and every argument:
-same result, same panic.  No fuel is involved: all loops are counted.
+(`bin/pre-C16`, which lists what is translated and what is skipped by name).  Dynamic dispatch through `Set[T]` is
+resolved by `extract/go2lean/devirt.go`: results that are always the receiver's type are typed so, the iterator `All`
+of `stable` / `sorted` is inlined, and — the one ASSUMPTION, option `-self Set` — a parameter of type `Set[T]` holds
+the receiver's own implementation.  The hand Model (`Model/C16.lean`) keeps the members as a `List`, the callback as a
+function that may itself fail, and one `MSet` for the three implementations; `toM` / `toM_st` / `toM_so` read the
+generated structures (members an `Array`, the callback a pure function, as the translator assumes of every function
+value) as the Model's.
+
+* `set`, `stable`: every statement is an EQUALITY of outcomes for every object, callback and argument (same result, same
+  panic); all loops are counted, no fuel.
+* `sorted`: binary search (`find`, `add`) is a fuel loop; the hand Model gives each search `len(members) + 1`, the
+  generated methods pass the caller's fuel down.  Statements are `x ≼ y` (the hand Model ran out of its own fuel, or
+  the outcomes are equal) for every fuel that covers the longest member list that can occur during the call
+  (`Add`: `len + len(vals) + 1`; `Union`: `len + Σ len(operands) + 1`; the others `len + 1` of the searched set);
+  the length bookkeeping is `add_len`, `remove_len`, `addEach_len`, `removeEach_len`.
 -/
 set_option linter.unusedSectionVars false
 set_option linter.unusedSimpArgs false
 namespace AlgoVerif.C16.Gen
 open AlgoVerif AlgoVerif.Outcome AlgoVerif.C16 AlgoVerif.Generated
-variable {α : Type} [Inhabited α]
+
+theorem bind_le' {β γ : Type} {x x' : Outcome β} {f f' : β → Outcome γ} (hx : x ≼ x')
+    (hf : ∀ a, x = .ok a → f a ≼ f' a) : (x >>= f) ≼ (x' >>= f') := by
+  rcases hx with rfl | rfl
+  · exact .inl rfl
+  · cases x <;> simp_all
+variable {α : Type} [Inhabited α] {σ : Type}
 
 /-- a Go callback `func(T, T) bool` (a pure total function for the translator) as the hand Model's callback -/
 def liftEq (eq : α → α → Bool) : EqualFunc α := fun a b => .ok (eq a b)
@@ -571,5 +584,1329 @@ theorem FirstMatch_eq_st (s : Set.stable α) (p : α → Bool) :
   | ok c => cases c <;> simp [foundOpt, optOf] <;> intro e <;> simp [← e, optOf]
   | panic => simp
   | diverge => simp
+
+/-! ## methods that take or return other sets (devirtualised: same implementation on both sides) -/
+
+/-- `for _, m := range s.members { if !rhs.Contains(m) { return false } }` (the loop of `Equal`, `IsSubset`) -/
+theorem Equal_loop_st (s rhs : Set.stable α) : ∀ (k i : Nat), i + k = s.members.size →
+    (Set.stable.Equal.loop1 s rhs k (i : Int)).map foundFalse = containsEach (toM_st rhs) (s.members.toList.drop i) := by
+  intro k
+  induction k with
+  | zero => intro i hi; simp [Set.stable.Equal.loop1, foundFalse, List.drop_eq_nil_of_le, ← hi, containsEach]
+  | succ k ih =>
+    intro i hi
+    obtain ⟨h1, h2⟩ := idx_drop s.members i (by omega)
+    have := ih (i + 1) (by omega)
+    rw [show ((i + 1 : Nat) : Int) = (i : Int) + 1 by omega] at this
+    simp only [Set.stable.Equal.loop1, h1, h2, containsEach, Contains_eq_st, Outcome.ok_bind, Outcome.pure_eq,
+      Outcome.bind_assoc, Outcome.map_bind]
+    cases (toM_st rhs).contains [s.members[i]] with
+    | ok b => cases b <;> simp [foundFalse, this]
+    | panic => simp
+    | diverge => simp
+
+theorem Equal_eq_st (s rhs : Set.stable α) : Set.stable.Equal s rhs = (toM_st s).equal (toM_st rhs) := by
+  have := Equal_loop_st s rhs s.members.size 0 (by omega)
+  simp only [Int.natCast_zero, List.drop_zero] at this
+  simp only [Set.stable.Equal, MSet.equal, Size_eq_st]
+  by_cases hs : (toM_st s).size = (toM_st rhs).size
+  · have hb : ((toM_st s).size != (toM_st rhs).size) = false := by simp [hs]
+    simp only [hb, Bool.false_eq_true, if_false, hs, ne_eq, not_true_eq_false]
+    have e : (toM_st s).members = s.members.toList := rfl
+    rw [e, ← this]
+    cases Set.stable.Equal.loop1 s rhs s.members.size 0 with
+    | ok c => cases c <;> simp [foundFalse]
+    | panic => simp
+    | diverge => simp
+  · have hb : ((toM_st s).size != (toM_st rhs).size) = true := by simp [bne, hs]
+    simp [hb, hs]
+
+/-- `for _, m := range s.members { if p(m) { matched.Add(m) } }` -/
+theorem SelectMatch_loop_st (s : Set.stable α) (p : α → Bool) : ∀ (k i : Nat) (matched : Set.stable α),
+    i + k = s.members.size →
+    (Set.stable.SelectMatch.loop1 s p k (i : Int) matched).map toM_st =
+      selectLoop p (toM_st matched) (s.members.toList.drop i) := by
+  intro k
+  induction k with
+  | zero => intro i matched hi; simp [Set.stable.SelectMatch.loop1, List.drop_eq_nil_of_le, ← hi, selectLoop]
+  | succ k ih =>
+    intro i matched hi
+    obtain ⟨h1, h2⟩ := idx_drop s.members i (by omega)
+    simp only [Set.stable.SelectMatch.loop1, h1, h2, selectLoop, Outcome.ok_bind, Outcome.pure_eq, Outcome.bind_assoc]
+    by_cases hp : p s.members[i] = true
+    · simp only [hp, if_true, Outcome.map_bind]
+      have ha := Add_eq_st matched #[s.members[i]]
+      have hl : (#[s.members[i]] : Array α).toList = [s.members[i]] := rfl
+      rw [hl] at ha
+      rw [← ha]
+      cases Set.stable.Add matched #[s.members[i]] with
+      | ok m1 =>
+        have := ih (i + 1) m1 (by omega)
+        rw [show ((i + 1 : Nat) : Int) = (i : Int) + 1 by omega] at this
+        simpa using this
+      | panic => simp
+      | diverge => simp
+    · have hp' : p s.members[i] = false := by simpa using hp
+      have := ih (i + 1) matched (by omega)
+      rw [show ((i + 1 : Nat) : Int) = (i : Int) + 1 by omega] at this
+      simpa [hp'] using this
+
+theorem SelectMatch_eq_st (s : Set.stable α) (p : α → Bool) :
+    (Set.stable.SelectMatch s p).map toM_st = (toM_st s).selectMatch p := by
+  simp only [Set.stable.SelectMatch, MSet.selectMatch, Outcome.bind_assoc, Outcome.pure_eq, Outcome.map_bind]
+  have hc := CloneEmpty_eq_st s
+  cases h : Set.stable.CloneEmpty s with
+  | ok m0 =>
+    rw [h] at hc
+    simp only [Outcome.map_ok, Outcome.ok.injEq] at hc
+    have := SelectMatch_loop_st s p s.members.size 0 m0 (by omega)
+    simp only [Int.natCast_zero, List.drop_zero] at this
+    have e : (toM_st s).members = s.members.toList := rfl
+    simp only [Outcome.ok_bind, e, ← hc, ← this]
+    first | done | (cases Set.stable.SelectMatch.loop1 s p s.members.size 0 m0 <;> rfl)
+  | panic => rw [h] at hc; cases hc
+  | diverge => rw [h] at hc; cases hc
+
+/-- the results of `PartitionMatch` -/
+def toM2_st (r : Set.stable α × Set.stable α) : MSet α × MSet α := (toM_st r.1, toM_st r.2)
+
+theorem PartitionMatch_loop_st (s : Set.stable α) (p : α → Bool) : ∀ (k i : Nat) (matched unmatched : Set.stable α),
+    i + k = s.members.size →
+    (Set.stable.PartitionMatch.loop1 s p k (i : Int) matched unmatched).map toM2_st =
+      partitionLoop p (toM_st matched) (toM_st unmatched) (s.members.toList.drop i) := by
+  intro k
+  induction k with
+  | zero =>
+    intro i matched unmatched hi
+    simp [Set.stable.PartitionMatch.loop1, List.drop_eq_nil_of_le, ← hi, partitionLoop, toM2_st]
+  | succ k ih =>
+    intro i matched unmatched hi
+    obtain ⟨h1, h2⟩ := idx_drop s.members i (by omega)
+    simp only [Set.stable.PartitionMatch.loop1, h1, h2, partitionLoop, Outcome.ok_bind, Outcome.pure_eq, Outcome.bind_assoc]
+    have hl : (#[s.members[i]] : Array α).toList = [s.members[i]] := rfl
+    by_cases hp : p s.members[i] = true
+    · simp only [hp, if_true, Outcome.map_bind]
+      have ha := Add_eq_st matched #[s.members[i]]
+      rw [hl] at ha
+      rw [← ha]
+      cases Set.stable.Add matched #[s.members[i]] with
+      | ok m1 =>
+        have := ih (i + 1) m1 unmatched (by omega)
+        rw [show ((i + 1 : Nat) : Int) = (i : Int) + 1 by omega] at this
+        simpa using this
+      | panic => simp
+      | diverge => simp
+    · have hp' : p s.members[i] = false := by simpa using hp
+      simp only [hp', Bool.false_eq_true, if_false, Outcome.map_bind]
+      have ha := Add_eq_st unmatched #[s.members[i]]
+      rw [hl] at ha
+      rw [← ha]
+      cases Set.stable.Add unmatched #[s.members[i]] with
+      | ok m1 =>
+        have := ih (i + 1) matched m1 (by omega)
+        rw [show ((i + 1 : Nat) : Int) = (i : Int) + 1 by omega] at this
+        simpa using this
+      | panic => simp
+      | diverge => simp
+
+theorem PartitionMatch_eq_st (s : Set.stable α) (p : α → Bool) :
+    (Set.stable.PartitionMatch s p).map toM2_st = (toM_st s).partitionMatch p := by
+  simp only [Set.stable.PartitionMatch, MSet.partitionMatch, Outcome.bind_assoc, Outcome.pure_eq, Outcome.map_bind]
+  have hc := CloneEmpty_eq_st s
+  cases h : Set.stable.CloneEmpty s with
+  | ok m0 =>
+    rw [h] at hc
+    simp only [Outcome.map_ok, Outcome.ok.injEq] at hc
+    have := PartitionMatch_loop_st s p s.members.size 0 m0 m0 (by omega)
+    simp only [Int.natCast_zero, List.drop_zero] at this
+    have e : (toM_st s).members = s.members.toList := rfl
+    simp only [Outcome.ok_bind, e, ← hc, ← this]
+    first | done | (cases Set.stable.PartitionMatch.loop1 s p s.members.size 0 m0 m0 <;> rfl)
+  | panic => rw [h] at hc; cases hc
+  | diverge => rw [h] at hc; cases hc
+
+/-! the same three for the unordered `set` (its `IsSubset`, `Union`, … iterate over a shuffled index list: not translated) -/
+
+/-- `for _, m := range s.members { if !rhs.Contains(m) { return false } }` (the loop of `Equal`, `IsSubset`) -/
+theorem Equal_loop (s rhs : Set.set α) : ∀ (k i : Nat), i + k = s.members.size →
+    (Set.set.Equal.loop1 s rhs k (i : Int)).map foundFalse = containsEach (toM rhs) (s.members.toList.drop i) := by
+  intro k
+  induction k with
+  | zero => intro i hi; simp [Set.set.Equal.loop1, foundFalse, List.drop_eq_nil_of_le, ← hi, containsEach]
+  | succ k ih =>
+    intro i hi
+    obtain ⟨h1, h2⟩ := idx_drop s.members i (by omega)
+    have := ih (i + 1) (by omega)
+    rw [show ((i + 1 : Nat) : Int) = (i : Int) + 1 by omega] at this
+    simp only [Set.set.Equal.loop1, h1, h2, containsEach, Contains_eq, Outcome.ok_bind, Outcome.pure_eq,
+      Outcome.bind_assoc, Outcome.map_bind]
+    cases (toM rhs).contains [s.members[i]] with
+    | ok b => cases b <;> simp [foundFalse, this]
+    | panic => simp
+    | diverge => simp
+
+theorem Equal_eq (s rhs : Set.set α) : Set.set.Equal s rhs = (toM s).equal (toM rhs) := by
+  have := Equal_loop s rhs s.members.size 0 (by omega)
+  simp only [Int.natCast_zero, List.drop_zero] at this
+  simp only [Set.set.Equal, MSet.equal, Size_eq]
+  by_cases hs : (toM s).size = (toM rhs).size
+  · have hb : ((toM s).size != (toM rhs).size) = false := by simp [hs]
+    simp only [hb, Bool.false_eq_true, if_false, hs, ne_eq, not_true_eq_false]
+    have e : (toM s).members = s.members.toList := rfl
+    rw [e, ← this]
+    cases Set.set.Equal.loop1 s rhs s.members.size 0 with
+    | ok c => cases c <;> simp [foundFalse]
+    | panic => simp
+    | diverge => simp
+  · have hb : ((toM s).size != (toM rhs).size) = true := by simp [bne, hs]
+    simp [hb, hs]
+
+/-- `for _, m := range s.members { if p(m) { matched.Add(m) } }` -/
+theorem SelectMatch_loop (s : Set.set α) (p : α → Bool) : ∀ (k i : Nat) (matched : Set.set α),
+    i + k = s.members.size →
+    (Set.set.SelectMatch.loop1 s p k (i : Int) matched).map toM =
+      selectLoop p (toM matched) (s.members.toList.drop i) := by
+  intro k
+  induction k with
+  | zero => intro i matched hi; simp [Set.set.SelectMatch.loop1, List.drop_eq_nil_of_le, ← hi, selectLoop]
+  | succ k ih =>
+    intro i matched hi
+    obtain ⟨h1, h2⟩ := idx_drop s.members i (by omega)
+    simp only [Set.set.SelectMatch.loop1, h1, h2, selectLoop, Outcome.ok_bind, Outcome.pure_eq, Outcome.bind_assoc]
+    by_cases hp : p s.members[i] = true
+    · simp only [hp, if_true, Outcome.map_bind]
+      have ha := Add_eq matched #[s.members[i]]
+      have hl : (#[s.members[i]] : Array α).toList = [s.members[i]] := rfl
+      rw [hl] at ha
+      rw [← ha]
+      cases Set.set.Add matched #[s.members[i]] with
+      | ok m1 =>
+        have := ih (i + 1) m1 (by omega)
+        rw [show ((i + 1 : Nat) : Int) = (i : Int) + 1 by omega] at this
+        simpa using this
+      | panic => simp
+      | diverge => simp
+    · have hp' : p s.members[i] = false := by simpa using hp
+      have := ih (i + 1) matched (by omega)
+      rw [show ((i + 1 : Nat) : Int) = (i : Int) + 1 by omega] at this
+      simpa [hp'] using this
+
+theorem SelectMatch_eq (s : Set.set α) (p : α → Bool) :
+    (Set.set.SelectMatch s p).map toM = (toM s).selectMatch p := by
+  simp only [Set.set.SelectMatch, MSet.selectMatch, Outcome.bind_assoc, Outcome.pure_eq, Outcome.map_bind]
+  have hc := CloneEmpty_eq s
+  cases h : Set.set.CloneEmpty s with
+  | ok m0 =>
+    rw [h] at hc
+    simp only [Outcome.map_ok, Outcome.ok.injEq] at hc
+    have := SelectMatch_loop s p s.members.size 0 m0 (by omega)
+    simp only [Int.natCast_zero, List.drop_zero] at this
+    have e : (toM s).members = s.members.toList := rfl
+    simp only [Outcome.ok_bind, e, ← hc, ← this]
+    first | done | (cases Set.set.SelectMatch.loop1 s p s.members.size 0 m0 <;> rfl)
+  | panic => rw [h] at hc; cases hc
+  | diverge => rw [h] at hc; cases hc
+
+/-- the results of `PartitionMatch` -/
+def toM2 (r : Set.set α × Set.set α) : MSet α × MSet α := (toM r.1, toM r.2)
+
+theorem PartitionMatch_loop (s : Set.set α) (p : α → Bool) : ∀ (k i : Nat) (matched unmatched : Set.set α),
+    i + k = s.members.size →
+    (Set.set.PartitionMatch.loop1 s p k (i : Int) matched unmatched).map toM2 =
+      partitionLoop p (toM matched) (toM unmatched) (s.members.toList.drop i) := by
+  intro k
+  induction k with
+  | zero =>
+    intro i matched unmatched hi
+    simp [Set.set.PartitionMatch.loop1, List.drop_eq_nil_of_le, ← hi, partitionLoop, toM2]
+  | succ k ih =>
+    intro i matched unmatched hi
+    obtain ⟨h1, h2⟩ := idx_drop s.members i (by omega)
+    simp only [Set.set.PartitionMatch.loop1, h1, h2, partitionLoop, Outcome.ok_bind, Outcome.pure_eq, Outcome.bind_assoc]
+    have hl : (#[s.members[i]] : Array α).toList = [s.members[i]] := rfl
+    by_cases hp : p s.members[i] = true
+    · simp only [hp, if_true, Outcome.map_bind]
+      have ha := Add_eq matched #[s.members[i]]
+      rw [hl] at ha
+      rw [← ha]
+      cases Set.set.Add matched #[s.members[i]] with
+      | ok m1 =>
+        have := ih (i + 1) m1 unmatched (by omega)
+        rw [show ((i + 1 : Nat) : Int) = (i : Int) + 1 by omega] at this
+        simpa using this
+      | panic => simp
+      | diverge => simp
+    · have hp' : p s.members[i] = false := by simpa using hp
+      simp only [hp', Bool.false_eq_true, if_false, Outcome.map_bind]
+      have ha := Add_eq unmatched #[s.members[i]]
+      rw [hl] at ha
+      rw [← ha]
+      cases Set.set.Add unmatched #[s.members[i]] with
+      | ok m1 =>
+        have := ih (i + 1) matched m1 (by omega)
+        rw [show ((i + 1 : Nat) : Int) = (i : Int) + 1 by omega] at this
+        simpa using this
+      | panic => simp
+      | diverge => simp
+
+theorem PartitionMatch_eq (s : Set.set α) (p : α → Bool) :
+    (Set.set.PartitionMatch s p).map toM2 = (toM s).partitionMatch p := by
+  simp only [Set.set.PartitionMatch, MSet.partitionMatch, Outcome.bind_assoc, Outcome.pure_eq, Outcome.map_bind]
+  have hc := CloneEmpty_eq s
+  cases h : Set.set.CloneEmpty s with
+  | ok m0 =>
+    rw [h] at hc
+    simp only [Outcome.map_ok, Outcome.ok.injEq] at hc
+    have := PartitionMatch_loop s p s.members.size 0 m0 m0 (by omega)
+    simp only [Int.natCast_zero, List.drop_zero] at this
+    have e : (toM s).members = s.members.toList := rfl
+    simp only [Outcome.ok_bind, e, ← hc, ← this]
+    first | done | (cases Set.set.PartitionMatch.loop1 s p s.members.size 0 m0 m0 <;> rfl)
+  | panic => rw [h] at hc; cases hc
+  | diverge => rw [h] at hc; cases hc
+
+
+/-- `stable` and `sorted` iterate in the stored order: no generator is involved -/
+theorem all_st (sh : Shuffle σ) (s : Set.stable α) (g : σ) : (toM_st s).all sh g = .ok (s.members.toList, g) := rfl
+
+theorem IsSubset_loop_st (s superset : Set.stable α) : ∀ (k i : Nat), i + k = s.members.size →
+    (Set.stable.IsSubset.loop1 s superset k (i : Int)).map foundFalse =
+      containsEach (toM_st superset) (s.members.toList.drop i) := by
+  intro k
+  induction k with
+  | zero => intro i hi; simp [Set.stable.IsSubset.loop1, foundFalse, List.drop_eq_nil_of_le, ← hi, containsEach]
+  | succ k ih =>
+    intro i hi
+    obtain ⟨h1, h2⟩ := idx_drop s.members i (by omega)
+    have := ih (i + 1) (by omega)
+    rw [show ((i + 1 : Nat) : Int) = (i : Int) + 1 by omega] at this
+    simp only [Set.stable.IsSubset.loop1, h1, h2, containsEach, Contains_eq_st, Outcome.ok_bind, Outcome.pure_eq,
+      Outcome.bind_assoc, Outcome.map_bind]
+    cases (toM_st superset).contains [s.members[i]] with
+    | ok b => cases b <;> simp [foundFalse, this]
+    | panic => simp
+    | diverge => simp
+
+theorem IsSubset_eq_st (sh : Shuffle σ) (s superset : Set.stable α) (g : σ) :
+    (toM_st s).isSubset sh (toM_st superset) g = (Set.stable.IsSubset s superset).map (fun b => (b, g)) := by
+  have := IsSubset_loop_st s superset s.members.size 0 (by omega)
+  simp only [Int.natCast_zero, List.drop_zero] at this
+  simp only [MSet.isSubset, all_st, Outcome.ok_bind, Set.stable.IsSubset, ← this, Outcome.pure_eq, Outcome.map_bind]
+  cases Set.stable.IsSubset.loop1 s superset s.members.size 0 with
+  | ok c => cases c <;> simp [foundFalse]
+  | panic => simp
+  | diverge => simp
+
+theorem IsSuperset_loop_st (s subset : Set.stable α) : ∀ (k i : Nat), i + k = subset.members.size →
+    (Set.stable.IsSuperset.loop1 s subset k (i : Int)).map foundFalse =
+      containsEach (toM_st s) (subset.members.toList.drop i) := by
+  intro k
+  induction k with
+  | zero => intro i hi; simp [Set.stable.IsSuperset.loop1, foundFalse, List.drop_eq_nil_of_le, ← hi, containsEach]
+  | succ k ih =>
+    intro i hi
+    obtain ⟨h1, h2⟩ := idx_drop subset.members i (by omega)
+    have := ih (i + 1) (by omega)
+    rw [show ((i + 1 : Nat) : Int) = (i : Int) + 1 by omega] at this
+    simp only [Set.stable.IsSuperset.loop1, h1, h2, containsEach, Contains_eq_st, Outcome.ok_bind, Outcome.pure_eq,
+      Outcome.bind_assoc, Outcome.map_bind]
+    cases (toM_st s).contains [subset.members[i]] with
+    | ok b => cases b <;> simp [foundFalse, this]
+    | panic => simp
+    | diverge => simp
+
+theorem IsSuperset_eq_st (sh : Shuffle σ) (s subset : Set.stable α) (g : σ) :
+    (toM_st s).isSuperset sh (toM_st subset) g = (Set.stable.IsSuperset s subset).map (fun b => (b, g)) := by
+  have := IsSuperset_loop_st s subset subset.members.size 0 (by omega)
+  simp only [Int.natCast_zero, List.drop_zero] at this
+  simp only [MSet.isSuperset, all_st, Outcome.ok_bind, Set.stable.IsSuperset, ← this, Outcome.pure_eq, Outcome.map_bind]
+  cases Set.stable.IsSuperset.loop1 s subset subset.members.size 0 with
+  | ok c => cases c <;> simp [foundFalse]
+  | panic => simp
+  | diverge => simp
+
+/-- `for m := range set.All() { t.Add(m) }` -/
+theorem Union_loop2_st (set : Set.stable α) : ∀ (k i : Nat) (t : Set.stable α), i + k = set.members.size →
+    (Set.stable.Union.loop2 set k (i : Int) t).map toM_st = addEach (toM_st t) (set.members.toList.drop i) := by
+  intro k
+  induction k with
+  | zero => intro i t hi; simp [Set.stable.Union.loop2, List.drop_eq_nil_of_le, ← hi, addEach]
+  | succ k ih =>
+    intro i t hi
+    obtain ⟨h1, h2⟩ := idx_drop set.members i (by omega)
+    simp only [Set.stable.Union.loop2, h1, h2, addEach, Outcome.ok_bind, Outcome.pure_eq, Outcome.bind_assoc, Outcome.map_bind]
+    have ha := Add_eq_st t #[set.members[i]]
+    have hl : (#[set.members[i]] : Array α).toList = [set.members[i]] := rfl
+    rw [hl] at ha
+    rw [← ha]
+    cases Set.stable.Add t #[set.members[i]] with
+    | ok t1 =>
+      have := ih (i + 1) t1 (by omega)
+      rw [show ((i + 1 : Nat) : Int) = (i : Int) + 1 by omega] at this
+      simpa using this
+    | panic => simp
+    | diverge => simp
+
+theorem idx_drop' {β : Type} (a : Array β) (i : Nat) (h : i < a.size) :
+    Go.idx a (i : Int) = .ok a[i] ∧ a.toList.drop i = a[i] :: a.toList.drop (i + 1) := by
+  refine ⟨Go.idx_nat h, ?_⟩
+  rw [← Array.getElem_toList (h := by simpa using h)]
+  exact List.drop_eq_getElem_cons (by simpa using h)
+
+theorem Union_loop1_st (sh : Shuffle σ) (g : σ) (sets : Array (Set.stable α)) : ∀ (k i : Nat) (t : Set.stable α),
+    i + k = sets.size →
+    (Set.stable.Union.loop1 sets k (i : Int) t).map (fun t => (toM_st t, g)) =
+      unionLoop sh (toM_st t) ((sets.toList.drop i).map toM_st) g := by
+  intro k
+  induction k with
+  | zero => intro i t hi; simp [Set.stable.Union.loop1, List.drop_eq_nil_of_le, ← hi, unionLoop]
+  | succ k ih =>
+    intro i t hi
+    obtain ⟨h1, h2⟩ := idx_drop' sets i (by omega)
+    simp only [Set.stable.Union.loop1, h1, h2, List.map_cons, unionLoop, all_st, Outcome.ok_bind, Outcome.pure_eq,
+      Outcome.bind_assoc, Outcome.map_bind]
+    have h2' := Union_loop2_st sets[i] sets[i].members.size 0 t (by omega)
+    simp only [Int.natCast_zero, List.drop_zero] at h2'
+    rw [← h2']
+    cases Set.stable.Union.loop2 sets[i] sets[i].members.size 0 t with
+    | ok t1 =>
+      have := ih (i + 1) t1 (by omega)
+      rw [show ((i + 1 : Nat) : Int) = (i : Int) + 1 by omega] at this
+      simpa using this
+    | panic => simp
+    | diverge => simp
+
+theorem Union_eq_st (sh : Shuffle σ) (s : Set.stable α) (sets : Array (Set.stable α)) (g : σ) :
+    (toM_st s).union sh (sets.toList.map toM_st) g = (Set.stable.Union s sets).map (fun t => (toM_st t, g)) := by
+  simp only [MSet.union, Set.stable.Union, Outcome.bind_assoc, Outcome.pure_eq, Outcome.map_bind]
+  have hc := Clone_eq_st s
+  cases h : Set.stable.Clone s with
+  | ok t0 =>
+    rw [h] at hc
+    simp only [Outcome.map_ok, Outcome.ok.injEq] at hc
+    have := Union_loop1_st sh g sets sets.size 0 t0 (by omega)
+    simp only [Int.natCast_zero, List.drop_zero] at this
+    simp only [Outcome.ok_bind, ← hc, ← this]
+    first | done | (cases Set.stable.Union.loop1 sets sets.size 0 t0 <;> rfl)
+  | panic => rw [h] at hc; cases hc
+  | diverge => rw [h] at hc; cases hc
+
+/-- `for m := range set.All() { t.Remove(m) }` -/
+theorem Difference_loop2_st (set : Set.stable α) : ∀ (k i : Nat) (t : Set.stable α), i + k = set.members.size →
+    (Set.stable.Difference.loop2 set k (i : Int) t).map toM_st = removeEach (toM_st t) (set.members.toList.drop i) := by
+  intro k
+  induction k with
+  | zero => intro i t hi; simp [Set.stable.Difference.loop2, List.drop_eq_nil_of_le, ← hi, removeEach]
+  | succ k ih =>
+    intro i t hi
+    obtain ⟨h1, h2⟩ := idx_drop set.members i (by omega)
+    simp only [Set.stable.Difference.loop2, h1, h2, removeEach, Outcome.ok_bind, Outcome.pure_eq, Outcome.bind_assoc, Outcome.map_bind]
+    have ha := Remove_eq_st t #[set.members[i]]
+    have hl : (#[set.members[i]] : Array α).toList = [set.members[i]] := rfl
+    rw [hl] at ha
+    rw [← ha]
+    cases Set.stable.Remove t #[set.members[i]] with
+    | ok t1 =>
+      have := ih (i + 1) t1 (by omega)
+      rw [show ((i + 1 : Nat) : Int) = (i : Int) + 1 by omega] at this
+      simpa using this
+    | panic => simp
+    | diverge => simp
+
+theorem Difference_loop1_st (sh : Shuffle σ) (g : σ) (sets : Array (Set.stable α)) : ∀ (k i : Nat) (t : Set.stable α),
+    i + k = sets.size →
+    (Set.stable.Difference.loop1 sets k (i : Int) t).map (fun t => (toM_st t, g)) =
+      diffLoop sh (toM_st t) ((sets.toList.drop i).map toM_st) g := by
+  intro k
+  induction k with
+  | zero => intro i t hi; simp [Set.stable.Difference.loop1, List.drop_eq_nil_of_le, ← hi, diffLoop]
+  | succ k ih =>
+    intro i t hi
+    obtain ⟨h1, h2⟩ := idx_drop' sets i (by omega)
+    simp only [Set.stable.Difference.loop1, h1, h2, List.map_cons, diffLoop, all_st, Outcome.ok_bind, Outcome.pure_eq,
+      Outcome.bind_assoc, Outcome.map_bind]
+    have h2' := Difference_loop2_st sets[i] sets[i].members.size 0 t (by omega)
+    simp only [Int.natCast_zero, List.drop_zero] at h2'
+    rw [← h2']
+    cases Set.stable.Difference.loop2 sets[i] sets[i].members.size 0 t with
+    | ok t1 =>
+      have := ih (i + 1) t1 (by omega)
+      rw [show ((i + 1 : Nat) : Int) = (i : Int) + 1 by omega] at this
+      simpa using this
+    | panic => simp
+    | diverge => simp
+
+theorem Difference_eq_st (sh : Shuffle σ) (s : Set.stable α) (sets : Array (Set.stable α)) (g : σ) :
+    (toM_st s).difference sh (sets.toList.map toM_st) g = (Set.stable.Difference s sets).map (fun t => (toM_st t, g)) := by
+  simp only [MSet.difference, Set.stable.Difference, Outcome.bind_assoc, Outcome.pure_eq, Outcome.map_bind]
+  have hc := Clone_eq_st s
+  cases h : Set.stable.Clone s with
+  | ok t0 =>
+    rw [h] at hc
+    simp only [Outcome.map_ok, Outcome.ok.injEq] at hc
+    have := Difference_loop1_st sh g sets sets.size 0 t0 (by omega)
+    simp only [Int.natCast_zero, List.drop_zero] at this
+    simp only [Outcome.ok_bind, ← hc, ← this]
+    first | done | (cases Set.stable.Difference.loop1 sets sets.size 0 t0 <;> rfl)
+  | panic => rw [h] at hc; cases hc
+  | diverge => rw [h] at hc; cases hc
+
+/-! ## `sorted` (sorted.go): binary search takes the caller's fuel
+
+The hand Model gives every binary search `len(members) + 1` units; the generated `find` / `add` loops draw on the fuel of
+the method that calls them.  The statements are `x ≼ y` (the hand Model ran out of its own fuel, or the outcomes are
+equal) for every fuel that covers the largest member list that can occur during the call. -/
+
+def liftCmp (cmp : α → α → Int) : CompareFunc α := fun a b => .ok (cmp a b)
+
+/-- the generated `sorted` structure read as the hand Model's object -/
+def toM_so (s : Set.sorted α) : MSet α := ⟨.sorted (liftCmp s.compare), s.members.toList⟩
+
+theorem idx_of_toList_some (a : Array α) {mid : Int} {m : α} (h0 : 0 ≤ mid) (h : a.toList[mid.toNat]? = some m) :
+    Go.idx a mid = .ok m := by
+  rw [Array.getElem?_toList] at h
+  obtain ⟨h2, rfl⟩ := Array.getElem?_eq_some_iff.1 h
+  have : 0 ≤ mid ∧ mid < a.size := by omega
+  simp [Go.idx, this]
+
+theorem idx_of_toList_none (a : Array α) {mid : Int} (h0 : 0 ≤ mid) (h : a.toList[mid.toNat]? = none) :
+    Go.idx a mid = .panic := by
+  rw [Array.getElem?_toList] at h
+  have h2 : a.size ≤ mid.toNat := Array.getElem?_eq_none_iff.1 h
+  exact Go.idx_of_invalid (by omega)
+
+theorem idx_of_neg (a : Array α) {mid : Int} (h0 : ¬ 0 ≤ mid) : Go.idx a mid = .panic :=
+  Go.idx_of_invalid (by omega)
+
+def foundIdx2 : Go.Ctl (Int × Int) Int → Int
+  | .ret i => i
+  | .next _ => -1
+
+/-- one round of the hand Model's binary search, with the checked read spelled as `Go.idx` -/
+theorem binFind_succ (cmp : α → α → Int) (a : Array α) (v : α) (f : Nat) (low high : Int) :
+    binFind (liftCmp cmp) a.toList v (f + 1) low high =
+      if low ≤ high then
+        Go.idx a ((low + high).tdiv 2) >>= fun m =>
+          if cmp v m < 0 then binFind (liftCmp cmp) a.toList v f low ((low + high).tdiv 2 - 1)
+          else if cmp v m > 0 then binFind (liftCmp cmp) a.toList v f ((low + high).tdiv 2 + 1) high
+          else .ok ((low + high).tdiv 2)
+      else .ok (-1) := by
+  simp only [binFind]
+  split
+  · split
+    · rename_i h0
+      split
+      · rename_i hn; rw [idx_of_toList_none a h0 hn]; rfl
+      · rename_i m hm; rw [idx_of_toList_some a h0 hm]; simp [liftCmp]
+    · rename_i h0; rw [idx_of_neg a h0]; rfl
+  · rfl
+
+/-- `for low <= high { mid := (low+high)/2; cmp := s.compare(v, s.members[mid]); … }` of `find` -/
+theorem find_loop_so (s : Set.sorted α) (v : α) (F : Nat) : ∀ (f d : Nat) (low high : Int),
+    binFind (liftCmp s.compare) s.members.toList v f low high ≼
+      (Set.sorted.find.loop1 F s v (f + d) low high).map foundIdx2 := by
+  intro f
+  induction f with
+  | zero => intro d low high; simp [binFind]
+  | succ f ih =>
+    intro d low high
+    rw [show f + 1 + d = (f + d) + 1 by omega]
+    simp only [binFind_succ, Set.sorted.find.loop1]
+    outcome_auto [foundIdx2]
+
+theorem find_le_so (s : Set.sorted α) (v : α) (F : Nat) (hF : s.members.size + 1 ≤ F) :
+    (toM_so s).find v ≼ Set.sorted.find F s v := by
+  obtain ⟨d, rfl⟩ : ∃ d, F = s.members.size + 1 + d := ⟨F - (s.members.size + 1), by omega⟩
+  have := find_loop_so s v (s.members.size + 1 + d) (s.members.size + 1) d 0 ((s.members.size : Int) - 1)
+  simp only [MSet.find, toM_so, Set.sorted.find, Array.length_toList, Outcome.bind_assoc, Outcome.pure_eq]
+  refine this.trans_eq ?_
+  cases Set.sorted.find.loop1 (s.members.size + 1 + d) s v (s.members.size + 1 + d) 0 ((s.members.size : Int) - 1) with
+  | ok c => cases c <;> simp [foundIdx2]
+  | panic => simp
+  | diverge => simp
+
+/-- `Contains` with any fuel `≥ len(members) + 1` -/
+theorem Contains_loop_so (s : Set.sorted α) (vals : Array α) (F : Nat) (hF : s.members.size + 1 ≤ F) :
+    ∀ (k i : Nat), i + k = vals.size →
+    (toM_so s).contains (vals.toList.drop i) ≼ (Set.sorted.Contains.loop1 F s vals k (i : Int)).map foundFalse := by
+  intro k
+  induction k with
+  | zero =>
+    intro i hi
+    simp [Set.sorted.Contains.loop1, foundFalse, List.drop_eq_nil_of_le, ← hi, MSet.contains]
+  | succ k ih =>
+    intro i hi
+    obtain ⟨h1, h2⟩ := idx_drop vals i (by omega)
+    have := ih (i + 1) (by omega)
+    rw [show ((i + 1 : Nat) : Int) = (i : Int) + 1 by omega] at this
+    simp only [Set.sorted.Contains.loop1, h1, h2, MSet.contains, Outcome.ok_bind, Outcome.pure_eq, Outcome.bind_assoc,
+      Outcome.map_bind]
+    refine bind_le' (find_le_so s vals[i] F hF) fun j _ => ?_
+    by_cases hj : j = -1
+    · subst hj; simp [foundFalse]
+    · have hj' : (j == -1) = false := by rw [beq_eq_false_iff_ne]; exact hj
+      simpa [hj, hj'] using this
+
+theorem Contains_le_so (s : Set.sorted α) (vals : Array α) (F : Nat) (hF : s.members.size + 1 ≤ F) :
+    (toM_so s).contains vals.toList ≼ Set.sorted.Contains F s vals := by
+  have := Contains_loop_so s vals F hF vals.size 0 (by omega)
+  simp only [Int.natCast_zero, List.drop_zero] at this
+  simp only [Set.sorted.Contains]
+  refine this.trans_eq ?_
+  cases Set.sorted.Contains.loop1 F s vals vals.size 0 with
+  | ok c => cases c <;> simp [foundFalse]
+  | panic => simp
+  | diverge => simp
+
+theorem binAddPos_succ (cmp : α → α → Int) (a : Array α) (v : α) (f : Nat) (low high : Int) :
+    binAddPos (liftCmp cmp) a.toList v (f + 1) low high =
+      if low ≤ high then
+        Go.idx a ((low + high).tdiv 2) >>= fun m =>
+          if cmp v m < 0 then binAddPos (liftCmp cmp) a.toList v f low ((low + high).tdiv 2 - 1)
+          else if cmp v m > 0 then binAddPos (liftCmp cmp) a.toList v f ((low + high).tdiv 2 + 1) high
+          else .ok none
+      else .ok (some low) := by
+  simp only [binAddPos]
+  split
+  · split
+    · rename_i h0
+      split
+      · rename_i hn; rw [idx_of_toList_none a h0 hn]; rfl
+      · rename_i m hm; rw [idx_of_toList_some a h0 hm]; simp [liftCmp]
+    · rename_i h0; rw [idx_of_neg a h0]; rfl
+  · rfl
+
+/-- how the search loop of `add` ends: `return` (the member exists) or the insertion position -/
+def addPos : Go.Ctl (Int × Int) (Set.sorted α) → Option Int
+  | .ret _ => none
+  | .next r => some r.1
+
+theorem add_loop_so (s : Set.sorted α) (v : α) (F : Nat) : ∀ (f d : Nat) (low high : Int),
+    binAddPos (liftCmp s.compare) s.members.toList v f low high ≼
+      (Set.sorted.add.loop1 F s v (f + d) low high).map addPos := by
+  intro f
+  induction f with
+  | zero => intro d low high; simp [binAddPos]
+  | succ f ih =>
+    intro d low high
+    rw [show f + 1 + d = (f + d) + 1 by omega]
+    simp only [binAddPos_succ, Set.sorted.add.loop1]
+    outcome_auto [addPos]
+
+/-- the search loop of `add` returns the receiver unchanged when it returns -/
+theorem add_loop_ret (s : Set.sorted α) (v : α) (F : Nat) : ∀ (k : Nat) (low high : Int) (r : Set.sorted α),
+    Set.sorted.add.loop1 F s v k low high = .ok (.ret r) → r = s := by
+  intro k
+  induction k with
+  | zero => intro low high r h; simp [Set.sorted.add.loop1] at h
+  | succ k ih =>
+    intro low high r h
+    simp only [Set.sorted.add.loop1] at h
+    split at h
+    · simp at h
+    · cases hi : Go.idx s.members ((low + high).tdiv 2) with
+      | ok m =>
+        simp only [hi, Outcome.ok_bind] at h
+        split at h
+        · exact ih _ _ _ h
+        · split at h
+          · exact ih _ _ _ h
+          · simp at h; exact h.symm
+      | panic => simp [hi] at h
+      | diverge => simp [hi] at h
+
+theorem toList_insertAt (m : Array α) (v : α) (j : Nat) (_hj : j ≤ m.size) :
+    (m.extract 0 j ++ (#[v] ++ m.extract j m.size)).toList = m.toList.take j ++ v :: m.toList.drop j := by
+  simp only [Array.toList_append, Array.toList_extract, List.extract_eq_take_drop, Nat.sub_zero, List.drop_zero]
+  rw [List.take_of_length_le (l := List.drop j m.toList) (by simp)]
+  rfl
+
+/-- `add` with any fuel `≥ len(members) + 1` -/
+theorem add_le_so (s : Set.sorted α) (v : α) (F : Nat) (hF : s.members.size + 1 ≤ F) :
+    (toM_so s).add1 v ≼ (Set.sorted.add F s v).map toM_so := by
+  obtain ⟨d, rfl⟩ : ∃ d, F = s.members.size + 1 + d := ⟨F - (s.members.size + 1), by omega⟩
+  have hl := add_loop_so s v (s.members.size + 1 + d) (s.members.size + 1) d 0 ((s.members.size : Int) - 1)
+  simp only [MSet.add1, toM_so, Set.sorted.add, Array.length_toList, Outcome.bind_assoc, Outcome.pure_eq, Outcome.map_bind]
+  generalize hX : Set.sorted.add.loop1 (s.members.size + 1 + d) s v (s.members.size + 1 + d) 0 ((s.members.size : Int) - 1) = X at hl
+  cases X with
+  | ok c =>
+    cases c with
+    | ret r =>
+      have hr := add_loop_ret s v _ _ _ _ r hX
+      subst hr
+      rcases hl with hl | hl
+      · simp [hl]
+      · simp [hl, addPos, toM_so]
+    | next lh =>
+      obtain ⟨low, high⟩ := lh
+      rcases hl with hl | hl
+      · simp [hl]
+      · simp only [hl, Outcome.map_ok, addPos, Outcome.ok_bind, Go.slice]
+        by_cases hr : 0 ≤ low ∧ low ≤ (s.members.size : Int)
+        · obtain ⟨n, rfl⟩ : ∃ n : Nat, low = (n : Int) := ⟨low.toNat, by omega⟩
+          have c1 : (0 : Int) ≤ 0 ∧ (0 : Int) ≤ (n : Int) ∧ (n : Int) ≤ (s.members.size : Int) := by omega
+          have c2 : (0 : Int) ≤ (n : Int) ∧ (n : Int) ≤ (s.members.size : Int) ∧
+              (s.members.size : Int) ≤ (s.members.size : Int) := by omega
+          simp only [hr, c1, c2, and_self, if_true, Outcome.ok_bind, Int.toNat_natCast, Int.toNat_zero, Outcome.map_ok,
+            Outcome.le_refl, toM_so]
+          rw [toList_insertAt _ _ _ (by omega)]
+          exact Outcome.le_refl _
+        · have c1 : ¬ ((0 : Int) ≤ 0 ∧ (0 : Int) ≤ low ∧ low ≤ (s.members.size : Int)) := by omega
+          simp [hr, c1]
+  | panic =>
+    rcases hl with hl | hl
+    · simp [hl]
+    · simp [hl]
+  | diverge =>
+    rcases hl with hl | hl
+    · simp [hl]
+    · simp [hl]
+
+/-! the methods of `sorted` that do not search (as for `stable`) -/
+
+theorem RemoveAll_eq_so (s : Set.sorted α) : (Set.sorted.RemoveAll s).map toM_so = .ok (toM_so s).removeAll := by
+  have : Go.make (default : α) 0 = .ok #[] := by simp [Go.make]
+  simp [Set.sorted.RemoveAll, this, toM_so, MSet.removeAll]
+
+theorem CloneEmpty_eq_so (s : Set.sorted α) : (Set.sorted.CloneEmpty s).map toM_so = .ok (toM_so s).cloneEmpty := by
+  have : Go.make (default : α) 0 = .ok #[] := by simp [Go.make]
+  simp [Set.sorted.CloneEmpty, this, toM_so, MSet.cloneEmpty]
+
+theorem Clone_eq_so (s : Set.sorted α) : (Set.sorted.Clone s).map toM_so = .ok (toM_so s).clone := by
+  simp [Set.sorted.Clone, Go.make_nat, copy_all, toM_so, MSet.clone]
+
+theorem Size_eq_so (s : Set.sorted α) : Set.sorted.Size s = (toM_so s).size := by simp [Set.sorted.Size, toM_so, MSet.size]
+
+theorem IsEmpty_eq_so (s : Set.sorted α) : Set.sorted.IsEmpty s = (toM_so s).isEmpty := by
+  simp only [Set.sorted.IsEmpty, toM_so, MSet.isEmpty, Array.length_toList]
+  by_cases h : s.members.size = 0
+  · simp [h]
+  · have h1 : ((s.members.size : Int) == 0) = false := by rw [beq_eq_false_iff_ne]; omega
+    have h2 : (s.members.size == 0) = false := by rw [beq_eq_false_iff_ne]; exact h
+    rw [h1, h2]
+
+theorem AnyMatch_loop_so (s : Set.sorted α) (p : α → Bool) : ∀ (k i : Nat), i + k = s.members.size →
+    (Set.sorted.AnyMatch.loop1 s p k (i : Int)).map foundTrue = .ok ((s.members.toList.drop i).any p) := by
+  intro k
+  induction k with
+  | zero => intro i hi; simp [Set.sorted.AnyMatch.loop1, foundTrue, List.drop_eq_nil_of_le, ← hi]
+  | succ k ih =>
+    intro i hi
+    obtain ⟨h1, h2⟩ := idx_drop s.members i (by omega)
+    have := ih (i + 1) (by omega)
+    rw [show ((i + 1 : Nat) : Int) = (i : Int) + 1 by omega] at this
+    simp only [Set.sorted.AnyMatch.loop1, h1, h2, List.any_cons, Outcome.ok_bind, Outcome.pure_eq]
+    by_cases hp : p s.members[i] = true
+    · simp [hp, foundTrue]
+    · have hp' : p s.members[i] = false := by simpa using hp
+      simpa [hp'] using this
+
+theorem AnyMatch_eq_so (s : Set.sorted α) (p : α → Bool) : Set.sorted.AnyMatch s p = .ok ((toM_so s).anyMatch p) := by
+  have := AnyMatch_loop_so s p s.members.size 0 (by omega)
+  simp only [Int.natCast_zero, List.drop_zero] at this
+  simp only [Set.sorted.AnyMatch, MSet.anyMatch, toM_so]
+  revert this
+  cases Set.sorted.AnyMatch.loop1 s p s.members.size 0 with
+  | ok c => cases c <;> simp [foundTrue] <;> intro e <;> simp [← e]
+  | panic => simp
+  | diverge => simp
+
+theorem AllMatch_loop_so (s : Set.sorted α) (p : α → Bool) : ∀ (k i : Nat), i + k = s.members.size →
+    (Set.sorted.AllMatch.loop1 s p k (i : Int)).map foundFalse = .ok ((s.members.toList.drop i).all p) := by
+  intro k
+  induction k with
+  | zero => intro i hi; simp [Set.sorted.AllMatch.loop1, foundFalse, List.drop_eq_nil_of_le, ← hi]
+  | succ k ih =>
+    intro i hi
+    obtain ⟨h1, h2⟩ := idx_drop s.members i (by omega)
+    have := ih (i + 1) (by omega)
+    rw [show ((i + 1 : Nat) : Int) = (i : Int) + 1 by omega] at this
+    simp only [Set.sorted.AllMatch.loop1, h1, h2, List.all_cons, Outcome.ok_bind, Outcome.pure_eq]
+    by_cases hp : p s.members[i] = true
+    · simpa [hp] using this
+    · have hp' : p s.members[i] = false := by simpa using hp
+      simp [hp', foundFalse]
+
+theorem AllMatch_eq_so (s : Set.sorted α) (p : α → Bool) : Set.sorted.AllMatch s p = .ok ((toM_so s).allMatch p) := by
+  have := AllMatch_loop_so s p s.members.size 0 (by omega)
+  simp only [Int.natCast_zero, List.drop_zero] at this
+  simp only [Set.sorted.AllMatch, MSet.allMatch, toM_so]
+  revert this
+  cases Set.sorted.AllMatch.loop1 s p s.members.size 0 with
+  | ok c => cases c <;> simp [foundFalse] <;> intro e <;> simp [← e]
+  | panic => simp
+  | diverge => simp
+
+theorem FirstMatch_loop_so (s : Set.sorted α) (p : α → Bool) : ∀ (k i : Nat), i + k = s.members.size →
+    (Set.sorted.FirstMatch.loop1 s p k (i : Int)).map foundOpt = .ok ((s.members.toList.drop i).find? p) := by
+  intro k
+  induction k with
+  | zero => intro i hi; simp [Set.sorted.FirstMatch.loop1, foundOpt, List.drop_eq_nil_of_le, ← hi]
+  | succ k ih =>
+    intro i hi
+    obtain ⟨h1, h2⟩ := idx_drop s.members i (by omega)
+    have := ih (i + 1) (by omega)
+    rw [show ((i + 1 : Nat) : Int) = (i : Int) + 1 by omega] at this
+    simp only [Set.sorted.FirstMatch.loop1, h1, h2, List.find?_cons, Outcome.ok_bind, Outcome.pure_eq]
+    by_cases hp : p s.members[i] = true
+    · simp [hp, foundOpt, optOf]
+    · have hp' : p s.members[i] = false := by simpa using hp
+      simpa [hp'] using this
+
+theorem FirstMatch_eq_so (s : Set.sorted α) (p : α → Bool) :
+    (Set.sorted.FirstMatch s p).map optOf = .ok ((toM_so s).firstMatch p) := by
+  have := FirstMatch_loop_so s p s.members.size 0 (by omega)
+  simp only [Int.natCast_zero, List.drop_zero] at this
+  simp only [Set.sorted.FirstMatch, MSet.firstMatch, toM_so, Outcome.map_bind]
+  revert this
+  cases Set.sorted.FirstMatch.loop1 s p s.members.size 0 with
+  | ok c => cases c <;> simp [foundOpt, optOf] <;> intro e <;> simp [← e, optOf]
+  | panic => simp
+  | diverge => simp
+
+/-! lengths along `Add` / `Remove` (hand Model, any implementation): the fuel must cover the longest member list -/
+
+theorem bind_eq_ok {β γ : Type} {x : Outcome β} {f : β → Outcome γ} {b : γ} :
+    (x >>= f) = .ok b ↔ ∃ a, x = .ok a ∧ f a = .ok b := by
+  cases x <;> simp
+
+theorem add1_len {s s' : MSet α} {v : α} (h : s.add1 v = .ok s') :
+    s'.members.length ≤ s.members.length + 1 ∧ s'.impl = s.impl := by
+  unfold MSet.add1 at h
+  split at h
+  · obtain ⟨b, -, h⟩ := bind_eq_ok.1 h
+    split at h <;> (cases h; simp)
+  · obtain ⟨b, -, h⟩ := bind_eq_ok.1 h
+    split at h <;> (cases h; simp)
+  · obtain ⟨r, -, h⟩ := bind_eq_ok.1 h
+    split at h
+    · cases h; simp
+    · split at h
+      · cases h
+        rename_i low hr
+        simp only [List.length_append, List.length_take, List.length_cons, List.length_drop, and_true]
+        omega
+      · cases h
+
+theorem add_len : ∀ (vs : List α) (s s' : MSet α), s.add vs = .ok s' →
+    s'.members.length ≤ s.members.length + vs.length ∧ s'.impl = s.impl := by
+  intro vs
+  induction vs with
+  | nil => intro s s' h; simp only [MSet.add] at h; cases h; simp
+  | cons v vs ih =>
+    intro s s' h
+    simp only [MSet.add] at h
+    obtain ⟨s1, h1, h2⟩ := bind_eq_ok.1 h
+    obtain ⟨l1, i1⟩ := add1_len h1
+    obtain ⟨l2, i2⟩ := ih s1 s' h2
+    exact ⟨by simp only [List.length_cons]; omega, i2.trans i1⟩
+
+theorem remove1_len {s s' : MSet α} {v : α} (h : s.remove1 v = .ok s') :
+    s'.members.length ≤ s.members.length ∧ s'.impl = s.impl := by
+  unfold MSet.remove1 at h
+  obtain ⟨i, -, h⟩ := bind_eq_ok.1 h
+  split at h
+  · split at h
+    · cases h
+      simp only [List.length_append, List.length_take, List.length_drop, and_true]
+      omega
+    · cases h
+  · cases h; simp
+
+theorem remove_len : ∀ (vs : List α) (s s' : MSet α), s.remove vs = .ok s' →
+    s'.members.length ≤ s.members.length ∧ s'.impl = s.impl := by
+  intro vs
+  induction vs with
+  | nil => intro s s' h; simp only [MSet.remove] at h; cases h; simp
+  | cons v vs ih =>
+    intro s s' h
+    simp only [MSet.remove] at h
+    obtain ⟨s1, h1, h2⟩ := bind_eq_ok.1 h
+    obtain ⟨l1, i1⟩ := remove1_len h1
+    obtain ⟨l2, i2⟩ := ih s1 s' h2
+    exact ⟨by omega, i2.trans i1⟩
+
+theorem le_bind_of_map {β γ δ : Type} {x : Outcome β} {y : Outcome γ} {p : γ → β} {g : β → Outcome δ}
+    {g' : γ → Outcome δ} (h : x ≼ y.map p) (hg : ∀ c, x = .ok (p c) → y = .ok c → g (p c) ≼ g' c) :
+    (x >>= g) ≼ (y >>= g') := by
+  cases y with
+  | ok c =>
+    rcases h with rfl | h
+    · simp
+    · rw [h]; simp only [Outcome.map_ok, Outcome.ok_bind]; exact hg c h rfl
+  | panic => rcases h with rfl | h <;> simp_all
+  | diverge => rcases h with rfl | h <;> simp_all
+
+@[simp] theorem toM_so_len (s : Set.sorted α) : (toM_so s).members.length = s.members.size := by simp [toM_so]
+
+/-- `Add(vals...)` with any fuel `≥ len(members) + len(vals) + 1` -/
+theorem Add_loop_so (vals : Array α) (F : Nat) : ∀ (k i : Nat) (s : Set.sorted α), i + k = vals.size →
+    s.members.size + k + 1 ≤ F →
+    (toM_so s).add (vals.toList.drop i) ≼ (Set.sorted.Add.loop1 F vals k (i : Int) s).map toM_so := by
+  intro k
+  induction k with
+  | zero => intro i s hi _; simp [Set.sorted.Add.loop1, List.drop_eq_nil_of_le, ← hi, MSet.add]
+  | succ k ih =>
+    intro i s hi hF
+    obtain ⟨h1, h2⟩ := idx_drop vals i (by omega)
+    simp only [Set.sorted.Add.loop1, h1, h2, MSet.add, Outcome.ok_bind, Outcome.pure_eq, Outcome.bind_assoc, Outcome.map_bind]
+    refine le_bind_of_map (add_le_so s vals[i] F (by omega)) fun s1 hx _ => ?_
+    have hl := (add1_len hx).1
+    simp only [toM_so_len] at hl
+    have := ih (i + 1) s1 (by omega) (by omega)
+    rwa [show ((i + 1 : Nat) : Int) = (i : Int) + 1 by omega] at this
+
+theorem Add_le_so (s : Set.sorted α) (vals : Array α) (F : Nat) (hF : s.members.size + vals.size + 1 ≤ F) :
+    (toM_so s).add vals.toList ≼ (Set.sorted.Add F s vals).map toM_so := by
+  have := Add_loop_so vals F vals.size 0 s (by omega) hF
+  simp only [Int.natCast_zero, List.drop_zero] at this
+  simp only [Set.sorted.Add, Outcome.bind_assoc, Outcome.pure_eq]
+  refine this.trans_eq ?_
+  cases Set.sorted.Add.loop1 F vals vals.size 0 s <;> rfl
+
+/-- one round of `Remove` -/
+theorem remove1_le_so (s : Set.sorted α) (v : α) (F : Nat) (hF : s.members.size + 1 ≤ F) :
+    (toM_so s).remove1 v ≼
+      (Set.sorted.find F s v >>= fun i =>
+        if (i != -1) = true then
+          Go.slice s.members 0 i >>= fun t2 => Go.slice s.members (i + 1) (s.members.size : Int) >>= fun t3 =>
+            Outcome.ok (toM_so { s with members := t2 ++ t3 })
+        else Outcome.ok (toM_so s)) := by
+  simp only [MSet.remove1]
+  refine bind_le' (find_le_so s v F hF) fun j _ => ?_
+  by_cases hj : j = -1
+  · subst hj; simp
+  · have hj' : (j != -1) = true := by simp [bne, hj]
+    simp only [hj, hj', ne_eq, not_false_eq_true, if_true, Go.slice, toM_so_len]
+    by_cases hr : 0 ≤ j ∧ j + 1 ≤ (s.members.size : Int)
+    · obtain ⟨n, rfl⟩ : ∃ n : Nat, j = (n : Int) := ⟨j.toNat, by omega⟩
+      have c1 : (0 : Int) ≤ 0 ∧ (0 : Int) ≤ (n : Int) ∧ (n : Int) ≤ (s.members.size : Int) := by omega
+      have c2 : (0 : Int) ≤ (n : Int) + 1 ∧ (n : Int) + 1 ≤ (s.members.size : Int) ∧
+          (s.members.size : Int) ≤ (s.members.size : Int) := by omega
+      simp only [hr, c1, c2, and_self, if_true, Outcome.ok_bind, Int.toNat_natCast, Int.toNat_zero, Outcome.pure_eq]
+      rw [show ((n : Int) + 1).toNat = n + 1 by omega]
+      simp only [toM_so, toList_removeAt _ _ (show n + 1 ≤ s.members.size by omega)]
+      exact Outcome.le_refl _
+    · simp only [hr, if_false, Outcome.panic_le]
+      by_cases h0 : 0 ≤ j ∧ j ≤ (s.members.size : Int)
+      · have c1 : (0 : Int) ≤ 0 ∧ (0 : Int) ≤ j ∧ j ≤ (s.members.size : Int) := ⟨Int.le_refl 0, h0.1, h0.2⟩
+        have c2 : ¬ ((0 : Int) ≤ j + 1 ∧ j + 1 ≤ (s.members.size : Int)) := by omega
+        simp [c1, c2]
+      · simp [h0]
+
+theorem Remove_loop_so (vals : Array α) (F : Nat) : ∀ (k i : Nat) (s : Set.sorted α), i + k = vals.size →
+    s.members.size + 1 ≤ F →
+    (toM_so s).remove (vals.toList.drop i) ≼ (Set.sorted.Remove.loop1 F vals k (i : Int) s).map toM_so := by
+  intro k
+  induction k with
+  | zero => intro i s hi _; simp [Set.sorted.Remove.loop1, List.drop_eq_nil_of_le, ← hi, MSet.remove]
+  | succ k ih =>
+    intro i s hi hF
+    obtain ⟨h1, h2⟩ := idx_drop vals i (by omega)
+    simp only [Set.sorted.Remove.loop1, h1, h2, MSet.remove, Outcome.ok_bind, Outcome.pure_eq, Outcome.bind_assoc, Outcome.map_bind]
+    have h1r := remove1_le_so s vals[i] F hF
+    -- the generated round, followed by the rest of the loop
+    have key : ∀ (x : Outcome (MSet α)), x ≼ (Set.sorted.find F s vals[i] >>= fun i_1 =>
+          if (i_1 != -1) = true then
+            Go.slice s.members 0 i_1 >>= fun t2 => Go.slice s.members (i_1 + 1) (s.members.size : Int) >>= fun t3 =>
+              Outcome.ok (toM_so { s with members := t2 ++ t3 })
+          else Outcome.ok (toM_so s)) →
+        x = (toM_so s).remove1 vals[i] →
+        (x >>= fun s1 => MSet.remove s1 (List.drop (i + 1) vals.toList)) ≼
+          (Set.sorted.find F s vals[i] >>= fun i_1 =>
+            (if (i_1 != -1) = true then
+              Go.slice s.members 0 i_1 >>= fun t2 => Go.slice s.members (i_1 + 1) (s.members.size : Int) >>= fun t3 =>
+                Outcome.ok ({ s with members := t2 ++ t3 } : Set.sorted α)
+            else Outcome.ok s) >>= fun s1 => (Set.sorted.Remove.loop1 F vals k ((i : Int) + 1) s1).map toM_so) := by
+      intro x hx hxe
+      cases hf : Set.sorted.find F s vals[i] with
+      | ok j =>
+        rw [hf] at hx
+        simp only [Outcome.ok_bind] at hx ⊢
+        by_cases hj : (j != -1) = true
+        · simp only [hj, if_true] at hx ⊢
+          cases h2s : Go.slice s.members 0 j with
+          | ok t2 =>
+            rw [h2s] at hx
+            simp only [Outcome.ok_bind] at hx ⊢
+            cases h3s : Go.slice s.members (j + 1) (s.members.size : Int) with
+            | ok t3 =>
+              rw [h3s] at hx
+              simp only [Outcome.ok_bind] at hx ⊢
+              rcases hx with hx | hx
+              · simp [hx]
+              · rw [hx]
+                simp only [Outcome.ok_bind]
+                have hl := (remove1_len (hxe ▸ hx)).1
+                simp only [toM_so_len] at hl
+                have hl' : (t2 ++ t3).size ≤ s.members.size := hl
+                have := ih (i + 1) { s with members := t2 ++ t3 } (by omega) (by show (t2 ++ t3).size + 1 ≤ F; omega)
+                rwa [show ((i + 1 : Nat) : Int) = (i : Int) + 1 by omega] at this
+            | panic => rw [h3s] at hx; simp only [Outcome.panic_bind] at hx ⊢; rcases hx with hx | hx <;> (rw [hx]; simp)
+            | diverge => rw [h3s] at hx; simp only [Outcome.diverge_bind] at hx ⊢; rcases hx with hx | hx <;> (rw [hx]; simp)
+          | panic => rw [h2s] at hx; simp only [Outcome.panic_bind] at hx ⊢; rcases hx with hx | hx <;> (rw [hx]; simp)
+          | diverge => rw [h2s] at hx; simp only [Outcome.diverge_bind] at hx ⊢; rcases hx with hx | hx <;> (rw [hx]; simp)
+        · have hj' : (j != -1) = false := by simpa using hj
+          simp only [hj', Bool.false_eq_true, if_false, Outcome.ok_bind] at hx ⊢
+          rcases hx with hx | hx
+          · simp [hx]
+          · rw [hx]
+            simp only [Outcome.ok_bind]
+            have := ih (i + 1) s (by omega) hF
+            rwa [show ((i + 1 : Nat) : Int) = (i : Int) + 1 by omega] at this
+      | panic => rw [hf] at hx; simp only [Outcome.panic_bind] at hx ⊢; rcases hx with hx | hx <;> (rw [hx]; simp)
+      | diverge => rw [hf] at hx; simp only [Outcome.diverge_bind] at hx ⊢; rcases hx with hx | hx <;> (rw [hx]; simp)
+    refine (key _ h1r rfl).trans_eq ?_
+    cases Set.sorted.find F s vals[i] with
+    | ok a =>
+      simp only [Outcome.ok_bind]
+      by_cases ha : (a != -1) = true
+      · simp only [ha, if_true, Outcome.bind_assoc, Outcome.ok_bind, Outcome.map_bind]
+      · have ha' : (a != -1) = false := by simpa using ha
+        simp only [ha', Bool.false_eq_true, if_false, Outcome.ok_bind]
+    | panic => rfl
+    | diverge => rfl
+
+theorem Remove_le_so (s : Set.sorted α) (vals : Array α) (F : Nat) (hF : s.members.size + 1 ≤ F) :
+    (toM_so s).remove vals.toList ≼ (Set.sorted.Remove F s vals).map toM_so := by
+  have := Remove_loop_so vals F vals.size 0 s (by omega) hF
+  simp only [Int.natCast_zero, List.drop_zero] at this
+  simp only [Set.sorted.Remove, Outcome.bind_assoc, Outcome.pure_eq]
+  refine this.trans_eq ?_
+  cases Set.sorted.Remove.loop1 F vals vals.size 0 s <;> rfl
+
+/-! `sorted`: the methods that take or return other sets, with fuel -/
+
+theorem all_so (sh : Shuffle σ) (s : Set.sorted α) (g : σ) : (toM_so s).all sh g = .ok (s.members.toList, g) := rfl
+
+/-- `for _, m := range a.members { if !b.Contains(m) { return false } }`: the loops of `Equal`, `IsSubset`, `IsSuperset` -/
+theorem containsEach_le_so (b : Set.sorted α) (F : Nat) (hF : b.members.size + 1 ≤ F) (ms : Array α)
+    (loop : Nat → Int → Outcome (Go.Ctl Unit Bool))
+    (hloop0 : ∀ i, loop 0 i = .ok (.next ()))
+    (hloopS : ∀ k i, loop (k + 1) i = (Go.idx ms i >>= fun m => Set.sorted.Contains F b #[m] >>= fun t =>
+        if (!t) = true then .ok (.ret false) else loop k (i + 1))) :
+    ∀ (k i : Nat), i + k = ms.size →
+    containsEach (toM_so b) (ms.toList.drop i) ≼ (loop k (i : Int)).map foundFalse := by
+  intro k
+  induction k with
+  | zero => intro i hi; simp [hloop0, foundFalse, List.drop_eq_nil_of_le, ← hi, containsEach]
+  | succ k ih =>
+    intro i hi
+    obtain ⟨h1, h2⟩ := idx_drop ms i (by omega)
+    have := ih (i + 1) (by omega)
+    rw [show ((i + 1 : Nat) : Int) = (i : Int) + 1 by omega] at this
+    simp only [hloopS, h1, h2, containsEach, Outcome.ok_bind, Outcome.pure_eq, Outcome.bind_assoc, Outcome.map_bind]
+    have hc := Contains_le_so b #[ms[i]] F hF
+    have hl : (#[ms[i]] : Array α).toList = [ms[i]] := rfl
+    rw [hl] at hc
+    refine bind_le' hc fun t _ => ?_
+    cases t <;> simp [foundFalse, this]
+
+theorem Equal_le_so (s rhs : Set.sorted α) (F : Nat) (hF : rhs.members.size + 1 ≤ F) :
+    (toM_so s).equal (toM_so rhs) ≼ Set.sorted.Equal F s rhs := by
+  have := containsEach_le_so rhs F hF s.members (Set.sorted.Equal.loop1 F s rhs)
+    (fun i => by simp [Set.sorted.Equal.loop1])
+    (fun k i => by simp only [Set.sorted.Equal.loop1, Outcome.bind_assoc, Outcome.pure_eq]) s.members.size 0 (by omega)
+  simp only [Int.natCast_zero, List.drop_zero] at this
+  simp only [Set.sorted.Equal, MSet.equal, Size_eq_so]
+  by_cases hs : (toM_so s).size = (toM_so rhs).size
+  · have hb : ((toM_so s).size != (toM_so rhs).size) = false := by simp [hs]
+    simp only [hb, Bool.false_eq_true, if_false, hs, ne_eq, not_true_eq_false]
+    have e : (toM_so s).members = s.members.toList := rfl
+    rw [e]
+    refine this.trans_eq ?_
+    cases Set.sorted.Equal.loop1 F s rhs s.members.size 0 with
+    | ok c => cases c <;> simp [foundFalse]
+    | panic => simp
+    | diverge => simp
+  · have hb : ((toM_so s).size != (toM_so rhs).size) = true := by simp [bne, hs]
+    simp [hb, hs]
+
+theorem IsSubset_le_so (sh : Shuffle σ) (s superset : Set.sorted α) (g : σ) (F : Nat) (hF : superset.members.size + 1 ≤ F) :
+    (toM_so s).isSubset sh (toM_so superset) g ≼ (Set.sorted.IsSubset F s superset).map (fun b => (b, g)) := by
+  have := containsEach_le_so superset F hF s.members (Set.sorted.IsSubset.loop1 F s superset)
+    (fun i => by simp [Set.sorted.IsSubset.loop1])
+    (fun k i => by simp only [Set.sorted.IsSubset.loop1, Outcome.bind_assoc, Outcome.pure_eq]) s.members.size 0 (by omega)
+  simp only [Int.natCast_zero, List.drop_zero] at this
+  simp only [MSet.isSubset, all_so, Outcome.ok_bind, Set.sorted.IsSubset, Outcome.pure_eq, Outcome.map_bind]
+  refine (bind_le' this fun b _ => Outcome.le_refl _).trans_eq ?_
+  cases Set.sorted.IsSubset.loop1 F s superset s.members.size 0 with
+  | ok c => cases c <;> simp [foundFalse]
+  | panic => simp
+  | diverge => simp
+
+theorem IsSuperset_le_so (sh : Shuffle σ) (s subset : Set.sorted α) (g : σ) (F : Nat) (hF : s.members.size + 1 ≤ F) :
+    (toM_so s).isSuperset sh (toM_so subset) g ≼ (Set.sorted.IsSuperset F s subset).map (fun b => (b, g)) := by
+  have := containsEach_le_so s F hF subset.members (Set.sorted.IsSuperset.loop1 F s subset)
+    (fun i => by simp [Set.sorted.IsSuperset.loop1])
+    (fun k i => by simp only [Set.sorted.IsSuperset.loop1, Outcome.bind_assoc, Outcome.pure_eq]) subset.members.size 0 (by omega)
+  simp only [Int.natCast_zero, List.drop_zero] at this
+  simp only [MSet.isSuperset, all_so, Outcome.ok_bind, Set.sorted.IsSuperset, Outcome.pure_eq, Outcome.map_bind]
+  refine (bind_le' this fun b _ => Outcome.le_refl _).trans_eq ?_
+  cases Set.sorted.IsSuperset.loop1 F s subset subset.members.size 0 with
+  | ok c => cases c <;> simp [foundFalse]
+  | panic => simp
+  | diverge => simp
+
+/-- `t.Add(m)` of one value, and the length afterwards -/
+theorem add_one_le_so (t : Set.sorted α) (m : α) (F : Nat) (hF : t.members.size + 2 ≤ F) :
+    (toM_so t).add [m] ≼ (Set.sorted.Add F t #[m]).map toM_so :=
+  Add_le_so t #[m] F (by simpa using hF)
+
+theorem add_one_len {t t' : MSet α} {m : α} (h : t.add [m] = .ok t') : t'.members.length ≤ t.members.length + 1 :=
+  (add_len [m] t t' h).1
+
+theorem SelectMatch_loop_so (s : Set.sorted α) (p : α → Bool) (F : Nat) : ∀ (k i : Nat) (matched : Set.sorted α),
+    i + k = s.members.size → matched.members.size + k + 1 ≤ F →
+    selectLoop p (toM_so matched) (s.members.toList.drop i) ≼
+      (Set.sorted.SelectMatch.loop1 F s p k (i : Int) matched).map toM_so := by
+  intro k
+  induction k with
+  | zero => intro i matched hi _; simp [Set.sorted.SelectMatch.loop1, List.drop_eq_nil_of_le, ← hi, selectLoop]
+  | succ k ih =>
+    intro i matched hi hF
+    obtain ⟨h1, h2⟩ := idx_drop s.members i (by omega)
+    simp only [Set.sorted.SelectMatch.loop1, h1, h2, selectLoop, Outcome.ok_bind, Outcome.pure_eq, Outcome.bind_assoc]
+    by_cases hp : p s.members[i] = true
+    · simp only [hp, if_true, Outcome.map_bind]
+      refine le_bind_of_map (add_one_le_so matched s.members[i] F (by omega)) fun m1 hx _ => ?_
+      have hl := add_one_len hx
+      simp only [toM_so_len] at hl
+      have := ih (i + 1) m1 (by omega) (by omega)
+      rwa [show ((i + 1 : Nat) : Int) = (i : Int) + 1 by omega] at this
+    · have hp' : p s.members[i] = false := by simpa using hp
+      have := ih (i + 1) matched (by omega) (by omega)
+      rw [show ((i + 1 : Nat) : Int) = (i : Int) + 1 by omega] at this
+      simpa [hp'] using this
+
+theorem CloneEmpty_size_so {s t : Set.sorted α} (h : Set.sorted.CloneEmpty s = .ok t) : t.members.size = 0 := by
+  have : Go.make (default : α) 0 = .ok #[] := by simp [Go.make]
+  simp only [Set.sorted.CloneEmpty, this, Outcome.ok_bind, Outcome.pure_eq, Outcome.ok.injEq] at h
+  subst h; rfl
+
+/-- `SelectMatch` with any fuel `≥ len(members) + 1` -/
+theorem SelectMatch_le_so (s : Set.sorted α) (p : α → Bool) (F : Nat) (hF : s.members.size + 1 ≤ F) :
+    (toM_so s).selectMatch p ≼ (Set.sorted.SelectMatch F s p).map toM_so := by
+  simp only [Set.sorted.SelectMatch, MSet.selectMatch, Outcome.bind_assoc, Outcome.pure_eq, Outcome.map_bind]
+  have hc := CloneEmpty_eq_so s
+  cases h : Set.sorted.CloneEmpty s with
+  | ok m0 =>
+    rw [h] at hc
+    simp only [Outcome.map_ok, Outcome.ok.injEq] at hc
+    have h0 := CloneEmpty_size_so h
+    have := SelectMatch_loop_so s p F s.members.size 0 m0 (by omega) (by omega)
+    simp only [Int.natCast_zero, List.drop_zero] at this
+    have e : (toM_so s).members = s.members.toList := rfl
+    simp only [Outcome.ok_bind, e, ← hc]
+    refine this.trans_eq ?_
+    cases Set.sorted.SelectMatch.loop1 F s p s.members.size 0 m0 <;> rfl
+  | panic => rw [h] at hc; cases hc
+  | diverge => rw [h] at hc; cases hc
+
+def toM2_so (r : Set.sorted α × Set.sorted α) : MSet α × MSet α := (toM_so r.1, toM_so r.2)
+
+theorem PartitionMatch_loop_so (s : Set.sorted α) (p : α → Bool) (F : Nat) :
+    ∀ (k i : Nat) (matched unmatched : Set.sorted α),
+    i + k = s.members.size → matched.members.size + k + 1 ≤ F → unmatched.members.size + k + 1 ≤ F →
+    partitionLoop p (toM_so matched) (toM_so unmatched) (s.members.toList.drop i) ≼
+      (Set.sorted.PartitionMatch.loop1 F s p k (i : Int) matched unmatched).map toM2_so := by
+  intro k
+  induction k with
+  | zero =>
+    intro i matched unmatched hi _ _
+    simp [Set.sorted.PartitionMatch.loop1, List.drop_eq_nil_of_le, ← hi, partitionLoop, toM2_so]
+  | succ k ih =>
+    intro i matched unmatched hi hF1 hF2
+    obtain ⟨h1, h2⟩ := idx_drop s.members i (by omega)
+    simp only [Set.sorted.PartitionMatch.loop1, h1, h2, partitionLoop, Outcome.ok_bind, Outcome.pure_eq, Outcome.bind_assoc]
+    by_cases hp : p s.members[i] = true
+    · simp only [hp, if_true, Outcome.map_bind]
+      refine le_bind_of_map (add_one_le_so matched s.members[i] F (by omega)) fun m1 hx _ => ?_
+      have hl := add_one_len hx
+      simp only [toM_so_len] at hl
+      have := ih (i + 1) m1 unmatched (by omega) (by omega) (by omega)
+      rwa [show ((i + 1 : Nat) : Int) = (i : Int) + 1 by omega] at this
+    · have hp' : p s.members[i] = false := by simpa using hp
+      simp only [hp', Bool.false_eq_true, if_false, Outcome.map_bind]
+      refine le_bind_of_map (add_one_le_so unmatched s.members[i] F (by omega)) fun m1 hx _ => ?_
+      have hl := add_one_len hx
+      simp only [toM_so_len] at hl
+      have := ih (i + 1) matched m1 (by omega) (by omega) (by omega)
+      rwa [show ((i + 1 : Nat) : Int) = (i : Int) + 1 by omega] at this
+
+/-- `PartitionMatch` with any fuel `≥ len(members) + 1` -/
+theorem PartitionMatch_le_so (s : Set.sorted α) (p : α → Bool) (F : Nat) (hF : s.members.size + 1 ≤ F) :
+    (toM_so s).partitionMatch p ≼ (Set.sorted.PartitionMatch F s p).map toM2_so := by
+  simp only [Set.sorted.PartitionMatch, MSet.partitionMatch, Outcome.bind_assoc, Outcome.pure_eq, Outcome.map_bind]
+  have hc := CloneEmpty_eq_so s
+  cases h : Set.sorted.CloneEmpty s with
+  | ok m0 =>
+    rw [h] at hc
+    simp only [Outcome.map_ok, Outcome.ok.injEq] at hc
+    have h0 := CloneEmpty_size_so h
+    have := PartitionMatch_loop_so s p F s.members.size 0 m0 m0 (by omega) (by omega) (by omega)
+    simp only [Int.natCast_zero, List.drop_zero] at this
+    have e : (toM_so s).members = s.members.toList := rfl
+    simp only [Outcome.ok_bind, e, ← hc]
+    refine this.trans_eq ?_
+    cases Set.sorted.PartitionMatch.loop1 F s p s.members.size 0 m0 m0 <;> rfl
+  | panic => rw [h] at hc; cases hc
+  | diverge => rw [h] at hc; cases hc
+
+/-! `Union`, `Difference` -/
+
+theorem addEach_len : ∀ (ms : List α) (t t' : MSet α), addEach t ms = .ok t' →
+    t'.members.length ≤ t.members.length + ms.length := by
+  intro ms
+  induction ms with
+  | nil => intro t t' h; simp only [addEach] at h; cases h; simp
+  | cons m ms ih =>
+    intro t t' h
+    simp only [addEach] at h
+    obtain ⟨t1, h1, h2⟩ := bind_eq_ok.1 h
+    have l1 := add_one_len h1
+    have l2 := ih t1 t' h2
+    simp only [List.length_cons]; omega
+
+theorem removeEach_len : ∀ (ms : List α) (t t' : MSet α), removeEach t ms = .ok t' →
+    t'.members.length ≤ t.members.length := by
+  intro ms
+  induction ms with
+  | nil => intro t t' h; simp only [removeEach] at h; cases h; simp
+  | cons m ms ih =>
+    intro t t' h
+    simp only [removeEach] at h
+    obtain ⟨t1, h1, h2⟩ := bind_eq_ok.1 h
+    have l1 := (remove_len [m] t t1 h1).1
+    have l2 := ih t1 t' h2
+    omega
+
+theorem Union_loop2_so (set : Set.sorted α) (F : Nat) : ∀ (k i : Nat) (t : Set.sorted α), i + k = set.members.size →
+    t.members.size + k + 1 ≤ F →
+    addEach (toM_so t) (set.members.toList.drop i) ≼ (Set.sorted.Union.loop2 F set k (i : Int) t).map toM_so := by
+  intro k
+  induction k with
+  | zero => intro i t hi _; simp [Set.sorted.Union.loop2, List.drop_eq_nil_of_le, ← hi, addEach]
+  | succ k ih =>
+    intro i t hi hF
+    obtain ⟨h1, h2⟩ := idx_drop set.members i (by omega)
+    simp only [Set.sorted.Union.loop2, h1, h2, addEach, Outcome.ok_bind, Outcome.pure_eq, Outcome.bind_assoc, Outcome.map_bind]
+    refine le_bind_of_map (add_one_le_so t set.members[i] F (by omega)) fun t1 hx _ => ?_
+    have hl := add_one_len hx
+    simp only [toM_so_len] at hl
+    have := ih (i + 1) t1 (by omega) (by omega)
+    rwa [show ((i + 1 : Nat) : Int) = (i : Int) + 1 by omega] at this
+
+/-- the number of members of the operands from the `i`-th on -/
+def total (sets : Array (Set.sorted α)) (i : Nat) : Nat := ((sets.toList.drop i).map (fun x => x.members.size)).sum
+
+theorem total_step (sets : Array (Set.sorted α)) (i : Nat) (h : i < sets.size) :
+    total sets i = sets[i].members.size + total sets (i + 1) := by
+  simp only [total, (idx_drop' sets i h).2, List.map_cons, List.sum_cons]
+
+theorem Union_loop1_so (sh : Shuffle σ) (g : σ) (sets : Array (Set.sorted α)) (F : Nat) :
+    ∀ (k i : Nat) (t : Set.sorted α), i + k = sets.size → t.members.size + total sets i + 1 ≤ F →
+    unionLoop sh (toM_so t) ((sets.toList.drop i).map toM_so) g ≼
+      (Set.sorted.Union.loop1 F sets k (i : Int) t).map (fun t => (toM_so t, g)) := by
+  intro k
+  induction k with
+  | zero => intro i t hi _; simp [Set.sorted.Union.loop1, List.drop_eq_nil_of_le, ← hi, unionLoop]
+  | succ k ih =>
+    intro i t hi hF
+    obtain ⟨h1, h2⟩ := idx_drop' sets i (by omega)
+    rw [total_step sets i (by omega)] at hF
+    simp only [Set.sorted.Union.loop1, h1, h2, List.map_cons, unionLoop, all_so, Outcome.ok_bind, Outcome.pure_eq,
+      Outcome.bind_assoc, Outcome.map_bind]
+    have h2' := Union_loop2_so sets[i] F sets[i].members.size 0 t (by omega) (by omega)
+    simp only [Int.natCast_zero, List.drop_zero] at h2'
+    refine le_bind_of_map h2' fun t1 hx _ => ?_
+    have hl := addEach_len _ _ _ hx
+    simp only [toM_so_len, Array.length_toList] at hl
+    have := ih (i + 1) t1 (by omega) (by omega)
+    rwa [show ((i + 1 : Nat) : Int) = (i : Int) + 1 by omega] at this
+
+theorem Clone_size_so {s t : Set.sorted α} (h : Set.sorted.Clone s = .ok t) : t.members.size = s.members.size := by
+  have hc := Clone_eq_so s
+  rw [h] at hc
+  simp only [Outcome.map_ok, Outcome.ok.injEq, MSet.clone] at hc
+  have := congrArg (fun m => m.members.length) hc
+  simpa [toM_so] using this
+
+/-- `Union` with any fuel `≥ len(members) + Σ len(operand members) + 1` -/
+theorem Union_le_so (sh : Shuffle σ) (s : Set.sorted α) (sets : Array (Set.sorted α)) (g : σ) (F : Nat)
+    (hF : s.members.size + total sets 0 + 1 ≤ F) :
+    (toM_so s).union sh (sets.toList.map toM_so) g ≼ (Set.sorted.Union F s sets).map (fun t => (toM_so t, g)) := by
+  simp only [MSet.union, Set.sorted.Union, Outcome.bind_assoc, Outcome.pure_eq, Outcome.map_bind]
+  have hc := Clone_eq_so s
+  cases h : Set.sorted.Clone s with
+  | ok t0 =>
+    rw [h] at hc
+    simp only [Outcome.map_ok, Outcome.ok.injEq] at hc
+    have h0 := Clone_size_so h
+    have := Union_loop1_so sh g sets F sets.size 0 t0 (by omega) (by omega)
+    simp only [Int.natCast_zero, List.drop_zero] at this
+    simp only [Outcome.ok_bind, ← hc]
+    refine this.trans_eq ?_
+    cases Set.sorted.Union.loop1 F sets sets.size 0 t0 <;> rfl
+  | panic => rw [h] at hc; cases hc
+  | diverge => rw [h] at hc; cases hc
+
+theorem Difference_loop2_so (set : Set.sorted α) (F : Nat) : ∀ (k i : Nat) (t : Set.sorted α), i + k = set.members.size →
+    t.members.size + 1 ≤ F →
+    removeEach (toM_so t) (set.members.toList.drop i) ≼ (Set.sorted.Difference.loop2 F set k (i : Int) t).map toM_so := by
+  intro k
+  induction k with
+  | zero => intro i t hi _; simp [Set.sorted.Difference.loop2, List.drop_eq_nil_of_le, ← hi, removeEach]
+  | succ k ih =>
+    intro i t hi hF
+    obtain ⟨h1, h2⟩ := idx_drop set.members i (by omega)
+    simp only [Set.sorted.Difference.loop2, h1, h2, removeEach, Outcome.ok_bind, Outcome.pure_eq, Outcome.bind_assoc, Outcome.map_bind]
+    have hr := Remove_le_so t #[set.members[i]] F hF
+    have hl0 : (#[set.members[i]] : Array α).toList = [set.members[i]] := rfl
+    rw [hl0] at hr
+    refine le_bind_of_map hr fun t1 hx _ => ?_
+    have hl := (remove_len _ _ _ hx).1
+    simp only [toM_so_len] at hl
+    have := ih (i + 1) t1 (by omega) (by omega)
+    rwa [show ((i + 1 : Nat) : Int) = (i : Int) + 1 by omega] at this
+
+theorem Difference_loop1_so (sh : Shuffle σ) (g : σ) (sets : Array (Set.sorted α)) (F : Nat) :
+    ∀ (k i : Nat) (t : Set.sorted α), i + k = sets.size → t.members.size + 1 ≤ F →
+    diffLoop sh (toM_so t) ((sets.toList.drop i).map toM_so) g ≼
+      (Set.sorted.Difference.loop1 F sets k (i : Int) t).map (fun t => (toM_so t, g)) := by
+  intro k
+  induction k with
+  | zero => intro i t hi _; simp [Set.sorted.Difference.loop1, List.drop_eq_nil_of_le, ← hi, diffLoop]
+  | succ k ih =>
+    intro i t hi hF
+    obtain ⟨h1, h2⟩ := idx_drop' sets i (by omega)
+    simp only [Set.sorted.Difference.loop1, h1, h2, List.map_cons, diffLoop, all_so, Outcome.ok_bind, Outcome.pure_eq,
+      Outcome.bind_assoc, Outcome.map_bind]
+    have h2' := Difference_loop2_so sets[i] F sets[i].members.size 0 t (by omega) hF
+    simp only [Int.natCast_zero, List.drop_zero] at h2'
+    refine le_bind_of_map h2' fun t1 hx _ => ?_
+    have hl := removeEach_len _ _ _ hx
+    simp only [toM_so_len] at hl
+    have := ih (i + 1) t1 (by omega) (by omega)
+    rwa [show ((i + 1 : Nat) : Int) = (i : Int) + 1 by omega] at this
+
+/-- `Difference` with any fuel `≥ len(members) + 1` -/
+theorem Difference_le_so (sh : Shuffle σ) (s : Set.sorted α) (sets : Array (Set.sorted α)) (g : σ) (F : Nat)
+    (hF : s.members.size + 1 ≤ F) :
+    (toM_so s).difference sh (sets.toList.map toM_so) g ≼ (Set.sorted.Difference F s sets).map (fun t => (toM_so t, g)) := by
+  simp only [MSet.difference, Set.sorted.Difference, Outcome.bind_assoc, Outcome.pure_eq, Outcome.map_bind]
+  have hc := Clone_eq_so s
+  cases h : Set.sorted.Clone s with
+  | ok t0 =>
+    rw [h] at hc
+    simp only [Outcome.map_ok, Outcome.ok.injEq] at hc
+    have h0 := Clone_size_so h
+    have := Difference_loop1_so sh g sets F sets.size 0 t0 (by omega) (by omega)
+    simp only [Int.natCast_zero, List.drop_zero] at this
+    simp only [Outcome.ok_bind, ← hc]
+    refine this.trans_eq ?_
+    cases Set.sorted.Difference.loop1 F sets sets.size 0 t0 <;> rfl
+  | panic => rw [h] at hc; cases hc
+  | diverge => rw [h] at hc; cases hc
 
 end AlgoVerif.C16.Gen
